@@ -28,10 +28,13 @@ class Ctx:
         self.roots_analysed = 0; self.paths_analysed = 0; self.steps = 0
         self.scan_wall = 0.0
         self.internal = []
+        self.elem = 'f32'      # 'f64' during the thorough tier's twin pass (every root re-instantiated with f64 elements)
 
     # ------------------------------------------------------------ analysis
     def scan(self, roots, features, local=False, extra_prelude=''):
         if self.only: roots = [r for r in roots if self.only in r.name]
+        if self.elem == 'f64':
+            roots = [vrun.Root(r.name, r.code.replace(r.name, '\0N\0').replace('f32', 'f64').replace('\0N\0', r.name), [o.replace('f32', 'f64') for o in r.opaque], r.max_paths) for r in roots]
         names = [r.name for r in roots]
         if len(set(names)) != len(names):
             dup = [n for n in names if names.count(n) > 1]
@@ -55,6 +58,7 @@ class Ctx:
 
     # ------------------------------------------------------------ obligations
     def ob(self, key, ok, rule='', where='', expected=None, found=None, detail=None):
+        if self.elem == 'f64': key = 'f64:' + key
         self.obligations += 1
         self.keys.add(key)
         r = self.rules.setdefault(rule or '?', [0, 0]); r[0] += 1
@@ -67,6 +71,7 @@ class Ctx:
         return False
 
     def viol(self, key, rule='', where='', expected=None, found=None, detail=None, counted=False):
+        if self.elem == 'f64' and not counted and not key.startswith('f64:'): key = 'f64:' + key
         if not counted:
             self.obligations += 1; self.keys.add(key)
         self.violations.append({'key': key, 'rule': rule, 'where': where, 'expected': short(expected, 2000), 'found': short(found, 2000), 'detail': detail})
